@@ -179,8 +179,16 @@ func (d *Decoder) decodeSet(mem MemCache, msg *Message) error {
 		}
 	}
 
-	// the next set should be greater than 4 bytes otherwise that's padding
-	for err == nil && setHeader.Length > uint16(d.reader.ReadCount()-startCount) && d.reader.Len() > 4 && setHeader.Length-uint16(d.reader.ReadCount()-startCount) > 4 {
+	// what is left of a set is padding once it is shorter than any record
+	// of the set (RFC 7011 3.3.1); a template record takes more than 4 bytes
+	minLen := 5
+	if setHeader.SetID > 255 && err == nil {
+		if minLen = tr.minRecordLen(); minLen < 1 {
+			minLen = 1
+		}
+	}
+
+	for err == nil && int(setHeader.Length)-(d.reader.ReadCount()-startCount) >= minLen && d.reader.Len() >= minLen {
 		if setID := setHeader.SetID; setID == 2 || setID == 3 {
 			// Template record or template option record
 
@@ -477,6 +485,30 @@ func (tr *TemplateRecord) unmarshalOpts(r *reader.Reader) error {
 		tr.FieldSpecifiers = append(tr.FieldSpecifiers, tf)
 	}
 	return nil
+}
+
+// minRecordLen returns the length of the shortest data record the template
+// describes; a variable-length field takes at least its one byte length prefix.
+func (tr *TemplateRecord) minRecordLen() int {
+	var n int
+
+	for _, f := range tr.ScopeFieldSpecifiers {
+		n += f.minLen()
+	}
+
+	for _, f := range tr.FieldSpecifiers {
+		n += f.minLen()
+	}
+
+	return n
+}
+
+func (f *TemplateFieldSpecifier) minLen() int {
+	if f.Length == 65535 {
+		return 1
+	}
+
+	return int(f.Length)
 }
 
 func (d *Decoder) getDataLength(fieldSpecifierLen uint16, t FieldType) (uint16, error) {
